@@ -72,8 +72,8 @@ def build(ctx):
     hs = []
     G, D = 2, 1
     ctx.assumptions = ["arbitrary prior image; geometry in front of the filled header within bounds (numInGroup <= %d, data length <= %d, wire blockLength == compiled); numInGroup argument over the whole range of its type" % (G, D),
-                       "header layouts enumerated: schemas/vs_hdr_a..e, g, h, i (counters in only one of message header / group dimension, ref-typed numGroups/numVarDataFields counters, reordered members, custom offsets + gaps + extra members, mixed integer widths, numGroups/numVarDataFields, ref-typed members) and vs_msg_le/be"]
-    fam = ["vs_hdr_%s.xml" % k for k in "abcdeghi"]
+                       "header layouts enumerated: schemas/vs_hdr_a..e, g, h, i, j (j: groups without fields but with an explicit blockLength; counters in only one of message header / group dimension, ref-typed numGroups/numVarDataFields counters, reordered members, custom offsets + gaps + extra members, mixed integer widths, numGroups/numVarDataFields, ref-typed members) and vs_msg_le/be"]
+    fam = ["vs_hdr_%s.xml" % k for k in "abcdeghij"]
     plan = [(x, "17") for x in fam] + [("vs_hdr_b.xml", "20"), ("vs_msg_be.xml", "17"), ("vs_msg2_le.xml", "17")] if ctx.quick else [(x, s) for s in ("11", "14", "17", "20") for x in fam + ["vs_msg_le.xml", "vs_msg_be.xml", "vs_msg2_le.xml", "vs_msg2_be.xml"]]
     plan = hgen.plan_env(plan, 2)
     for (xml, std) in plan:
